@@ -70,6 +70,15 @@ fn shapes(ctx: &mut Context) -> Vec<(&'static str, Node)> {
     let w = ctx.mul(w, 0.15).unwrap();
     let zz = ctx.sub(z, w).unwrap();
     v.push(("ground", ctx.sub(zz, 0.2).unwrap()));
+    // a beam across the top rows of the image, high up and unbounded in x (it extends past the image edge into the part of an edge
+    // root tile that is not shown), over a floor that is only visible in a lower slab
+    let zb = ctx.sub(z, 0.55).unwrap();
+    let zb = ctx.abs(zb).unwrap();
+    let zb = ctx.sub(zb, 0.12).unwrap();
+    let yb = ctx.sub(0.45, y).unwrap();
+    let beam = ctx.max(zb, yb).unwrap();
+    let floor = ctx.add(z, 0.55).unwrap();
+    v.push(("beam-floor", ctx.min(beam, floor).unwrap()));
     // inside everywhere above a plane: full up to (and beyond) the top of the grid, the clamp
     v.push(("ceiling", ctx.sub(-0.3, z).unwrap()));
     v
@@ -216,7 +225,7 @@ pub fn render3d(thorough: bool) -> Report {
     let mut r = Report::new("render3d");
     run_all(&mut r, thorough, None);
     r.distinct = r.cases;
-    r.space = "5 shapes (sphere; two spheres stacked along z plus a thin slab: several objects per pixel column; a box with a hole and a tilted cut; a wavy ground that fills whole tiles; a ceiling that is inside up to and beyond the top of the grid) x grid sizes incl. width != height != depth, non-multiples of the root tile and 1x1x5 x tile-size lists {default, [8], [16,4], [32,8,2], [12,6,3], [16,8,4,1]} x 3 view transforms (identity, scale+shift, rotation about x) x {VM, JIT} x {no thread pool, rayon}; every pixel column compared with Context::eval at cfg.mat() * (i, j, k) for every k: depth = highest inside voxel + 1 (band of 2e-5 relative around zero counts either way; columns inside between the top of the grid and the top of the last root-tile slab are skipped, as the property says), normals of unclamped surface pixels against the VM gradient evaluation of the original shape at that voxel".into();
+    r.space = "6 shapes (sphere; a beam across the top rows that extends past the image edge over a floor only visible in a lower slab; two spheres stacked along z plus a thin slab: several objects per pixel column; a box with a hole and a tilted cut; a wavy ground that fills whole tiles; a ceiling that is inside up to and beyond the top of the grid) x grid sizes incl. width != height != depth, non-multiples of the root tile and 1x1x5 x tile-size lists {default, [8], [16,4], [32,8,2], [12,6,3], [16,8,4,1]} x 3 view transforms (identity, scale+shift, rotation about x) x {VM, JIT} x {no thread pool, rayon}; every pixel column compared with Context::eval at cfg.mat() * (i, j, k) for every k: depth = highest inside voxel + 1 (band of 2e-5 relative around zero counts either way; columns inside between the top of the grid and the top of the last root-tile slab are skipped, as the property says), normals of unclamped surface pixels against the VM gradient evaluation of the original shape at that voxel".into();
     r
 }
 
